@@ -212,6 +212,15 @@ impl<'a, F: FileSystem> ExtendsResolver<'a, F> {
         mut sources: Option<&mut Vec<SourcedConfig>>,
         depth: usize,
     ) -> Result<(toml::Value, Option<String>)> {
+        // A value of the wrong type would otherwise be dropped silently with the key
+        for key in ["extends", "extends_sha256"] {
+            if config_value.get(key).is_some_and(|v| !v.is_str()) {
+                return Err(SlocGuardError::Config(format!(
+                    "'{key}' must be a string"
+                )));
+            }
+        }
+
         let extends_value = config_value
             .get("extends")
             .and_then(toml::Value::as_str)
